@@ -259,6 +259,7 @@ type runner struct {
 	lines    []string // model driver requests
 	pipeLive bool
 	mu       sync.Mutex
+	bounds   [][]int // per source: number of stored events after each acknowledged write (confirmation boundaries)
 }
 
 func (r *runner) mkEvents(src, n int, fields string) []ev {
@@ -302,6 +303,9 @@ func (r *runner) write(src int, evs []ev, via string) error {
 	if err == nil {
 		r.mu.Lock()
 		r.written[src] = append(r.written[src], evs...)
+		if r.bounds != nil {
+			r.bounds[src] = append(r.bounds[src], len(r.written[src]))
+		}
 		r.mu.Unlock()
 	}
 	return err
@@ -474,6 +478,8 @@ func fieldsWithProv(orig, tl string) string {
 }
 
 // runHistory executes h on a fresh server and evaluates SPEC; the MODEL lines are answered afterwards in batch.
+var f34Attributed int64
+
 // report of one execution of a history (nothing goes to the result file before the wrapper has classified it)
 type execReport struct {
 	fails []vh.SpecFailure
@@ -503,6 +509,15 @@ func runHistory(h *history, sec *vh.Section, section string) {
 			}
 			rp.fails = append(rp.fails, again.fails...)
 			rp.mms = append(rp.mms, again.mms...)
+		} else if n := atomic.AddInt64(&f34Attributed, 1); n > 3 {
+			// the library race is rare (about one lost run per thousand chunk confirmations): more than three such losses in one
+			// run are too frequent to be it
+			for i := range rp.fails {
+				if rp.fails[i].Kind == "tail-skip" {
+					rp.fails[i].Kind, rp.fails[i].Finding, rp.fails[i].ImplEqModel = "lost-event", "", false
+					rp.fails[i].What += " — more than three losses of this shape in one run: too frequent for the rare library race"
+				}
+			}
 		} else {
 			res.Dist(sec, "F34-shaped loss, not reproduced by a second execution")
 		}
@@ -531,6 +546,7 @@ func execHistory(h *history, sec *vh.Section, section string, quiet bool) (rp *e
 	defer func() { r.srv.Stop() }()
 	ns := len(h.Sources)
 	r.seq, r.written, r.created, r.deleted = make([]int, ns), make([][]ev, ns), make([]int, ns), make([]int, ns)
+	r.bounds = make([][]int, ns)
 	for i := range r.deleted {
 		r.deleted[i] = -1
 	}
@@ -828,6 +844,9 @@ func execHistory(h *history, sec *vh.Section, section string, quiet bool) (rp *e
 		if !posAtEnd[i] {
 			kind = "" // the copy is not finished or the position is stuck: not a jump over events
 		}
+		if kind == "tail-skip" && !runsAtConfirmationBoundaries(r, i, proj[i], ref) {
+			kind = "" // the library race jumps from one confirmed count to a later one: whole batches (or their portions up to a chunk end)
+		}
 		switch kind {
 		case "tail-skip":
 			fail("tail-skip", in+fmt.Sprintf("the pipe's saved position stands at the end of the source, yet %d of its events in %d contiguous run(s) were never copied; everything else is there once, in order, unaltered (a reader at the tail stepped over freshly confirmed records)", len(ref)-len(proj[i]), missingRuns(proj[i], ref)),
@@ -905,6 +924,82 @@ func classifyLoss(got, want []ev) (kind, finding string) {
 		j++
 	}
 	return "tail-skip", "F34"
+}
+
+// runsAtConfirmationBoundaries: every missing run begins and ends where a confirmation can begin and end — at the end of an
+// acknowledged write batch or at the end of a chunk of the source (records become readable batch-wise: the chunk writer
+// confirms under the lock a whole Write holds; a roll-over confirms the full chunk). Events the filter rejects are
+// transparent. The sequence number in a message is the event's index in its source.
+func runsAtConfirmationBoundaries(r *runner, src int, got, want []ev) bool {
+	bset := map[int]bool{0: true}
+	r.mu.Lock()
+	for _, b := range r.bounds[src] {
+		bset[b] = true
+	}
+	r.mu.Unlock()
+	if _, cs, err := chunkCounts(r.srv, tagLine(r.h.Sources[src])); err == nil {
+		n := 0
+		for _, c := range cs {
+			n += c
+			bset[n] = true
+		}
+	}
+	seqOf := func(e ev) int {
+		var s, q int
+		fmt.Sscanf(e.Msg, "s%d#%d ", &s, &q)
+		return q
+	}
+	wanted := map[int]bool{}
+	for _, w := range want {
+		wanted[seqOf(w)] = true
+	}
+	atBoundaryBefore := func(x int) bool { // only unwanted (rejected / older than the pipe) events between a boundary and x
+		for k := x; k >= 0; k-- {
+			if bset[k] {
+				return true
+			}
+			if k-1 >= 0 && wanted[k-1] {
+				return false
+			}
+		}
+		return true
+	}
+	total := len(r.written[src])
+	atBoundaryAfter := func(x int) bool {
+		for k := x; k <= total; k++ {
+			if bset[k] {
+				return true
+			}
+			if wanted[k] {
+				return false
+			}
+		}
+		return true
+	}
+	j, in, start, last := 0, false, 0, 0
+	for _, w := range want {
+		if j < len(got) && got[j] == w {
+			j++
+			if in {
+				if !atBoundaryAfter(last + 1) {
+					return false
+				}
+				in = false
+			}
+			continue
+		}
+		if !in {
+			in, start = true, seqOf(w)
+			if !atBoundaryBefore(start) {
+				return false
+			}
+		}
+		last = seqOf(w)
+	}
+	if in && !atBoundaryAfter(last+1) {
+		return false
+	}
+	return true
 }
 
 func missingRuns(got, want []ev) int {
